@@ -595,8 +595,10 @@ addrxlat_get_page(const addrxlat_cb_t *cb, addrxlat_buffer_t *buf)
 	pio->addr.addr = buf->addr.addr;
 	pio->addr.as = buf->addr.as;
 	status = get_page(pio);
-	if (status != KDUMP_OK)
+	if (status != KDUMP_OK) {
+		free(pio);
 		return kdump2addrxlat(ctx, status);
+	}
 
 	buf->ptr = pio->chunk.data;
 	return ADDRXLAT_OK;
